@@ -1111,6 +1111,7 @@ def tasks(tier, seed):
 
 
 ADOPTERS = ("HDDDM", "CDBD", "KdqTreeBatch", "NNDVI")
+_SEED_DEPENDENT = ("KdqTreeBatch", "KdqTreeStreaming", "NNDVI", "LinearFourRates", "BatchEnsemble", "StreamingEnsemble")
 REQUIRED = (
     [
         "overwrite_after_reference_batch",
@@ -1132,8 +1133,10 @@ REQUIRED = (
     ]
     + ["overwrite_layout:%s" % l for l in LAYOUTS + ROW_LAYOUTS]
     + ["layout:%s" % l for l in LAYOUTS + ROW_LAYOUTS]
-    + ["update_after_adopted_batch_was_overwritten:%s" % n for n in ADOPTERS]
-    + ["drift:%s" % n for n in FAMILIES]
+    # per-family counters are demanded only where they do not depend on bootstrap / permutation / Monte-Carlo draws
+    # (those vary with VERIF_SEED; the stochastic families are still counted and reported)
+    + ["update_after_adopted_batch_was_overwritten:%s" % n for n in ADOPTERS if n not in _SEED_DEPENDENT]
+    + ["drift:%s" % n for n in FAMILIES if n not in _SEED_DEPENDENT]
     + ["call:MD3.update", "call:MD3.set_reference", "call:MD3.give_oracle_label"]
     + ["injector:%s" % n for n in INJECTORS]
 )
